@@ -6,23 +6,25 @@
    create_complete_ordered is PROVED in full (C16_create_complete_ordered): exec on the empty catalog accepts the
    creation script and builds exactly the model's schema; the interpreter rejects a foreign key to a table that
    is not there yet, so this carries the ordering clause (argument: C16_depth_is_longest_path).
-   delta_sound is FALSE of the current source (four edit kinds, refuted below).  Proved: C16_delta_identity (full)
-   and C16_delta_sound_tables_partial + corollaries: every pair of versions whose shared tables are declared the
-   same (up to source position / column order) - tables added with arbitrary references, tables dropped.
-   NOT proved (kept here as the target):
-     delta_sound_partial : forall old new, wf old -> wf new -> edits_in_scope old new = true ->
-        exec empty (create old ++ delta old new) = Ok c /\ forall tb in new, tab_ok c tb
+   delta_sound is FALSE of the current source (four edit kinds, refuted below).  Proved: C16_delta_identity (full),
+   C16_delta_sound_tables_partial + corollaries (shared tables declared the same) and - round 3, second pass -
+   C16_delta_sound_columns_partial + corollaries: EVERY pair of versions outside the four known-finding kinds, i.e.
+   arbitrary column-level edits of retained tables (columns added / dropped / retyped / changed in kind, references
+   added / dropped / retargeted, key columns added / dropped / renamed, ~autoinc dropped) together with tables added
+   and dropped:
+     forall old new cat0, wf, acyclic, typings tyo tyn ->
+        edits_in_scope tyo tyn old new = true -> drops_unreferenced old new cat0 -> cat_holds old cat0 ->
+        exec cat0 (delta old new) = XOk cat1 /\ cat_holds new cat1
      with edits_in_scope = no retained column (1) gains ~autoinc, (2) is ~autoinc in both versions with a changed
-     primitive, (3) keeps a reference whose target column changes its SQL type, (4) is dropped while a column of the
-     old version refers to it.  Missing: the invariant for column-level statements on a retained table (ADD / DROP
-     COLUMN, ALTER TYPE, constraint replacement rewrite one entry in the middle of the catalog; the lemmas here only
-     cover appending a table) and, for clause "exactly", a weaker col_ok that does not constrain sequence defaults
-     (dropping ~autoinc leaves the default in place).  Those edit kinds are tied by the interpreted correspondence. *)
+     primitive, (3) keeps a reference whose target column changes its SQL type; drops_unreferenced = (4) no column is
+     dropped while a foreign key of the database points at it.  cat_holds is cat_matches without the clause on the
+     DEFAULT of columns that are not ~autoinc (a column that loses ~autoinc keeps its sequence default), plus two
+     facts every catalog built by the scripts has (no empty key, every sequence belongs to a column). *)
 From Coq Require Import String List NArith PArith Bool Permutation.
 Import ListNotations.
 Require Import Verif.Db.Depth Verif.Db.DepthProps Verif.Db.Script Verif.Db.SqlInterp Verif.Gen.DbTables
   Verif.Db.Tables Verif.Db.ScriptProps Verif.Db.CatalogProps Verif.Db.CreateProps Verif.Db.DeltaProps
-  Verif.Db.Text Verif.Db.TextProps Verif.Db.TextSource.
+  Verif.Db.Text Verif.Db.TextProps Verif.Db.TextSource Verif.Db.ColsSpec Verif.Db.ColsProps Verif.Db.ColsDelta Verif.Db.Files Verif.Db.FilesProps.
 
 (* ---- obligations against the current source (regenerated table) ---- *)
 Theorem C16_source_shape :
@@ -350,3 +352,157 @@ Example C16_apps_hypotheses_met :
                  CreateTable 3%positive [(13%positive, TVarchar 50)] [] [(13%positive, (1%positive, 11%positive))]]];
      []].
 Proof. exact apps_hypotheses_met. Qed.
+
+(* ======================================================================================================
+   Round 3, second pass: delta_sound for column-level edits of retained tables.
+
+   is_typing m ty: ty (t, c) is the SQL type of column c of table t - mapped primitive, bigint for ~autoinc, the type of
+   the referenced column for a reference (a solution exists for every resolvable acyclic model: `mty` computes it).
+   cat_holds m cat: no table twice, no empty key, every sequence belongs to a column, and every table of m is in cat
+   with exactly its columns, each with its SQL type (a reference: the type the referenced column has in cat; ~autoinc:
+   bigint with its sequence default), the ~pk columns as key, one foreign key per reference. *)
+
+(* PARTIAL of delta_sound - every pair of versions outside the four known-finding kinds.  cat0 is ANY catalog that
+   holds the old version (in particular the one `create old` builds) and none of the tables the new version adds. *)
+Theorem C16_delta_sound_columns_partial : forall old new dold dn tyo tyn ord fuel cat0,
+  wf old -> wf new -> wf_cols old -> wf_cols new -> is_depth old dold -> is_depth new dn ->
+  is_typing old tyo -> is_typing new tyn -> perm_oracle ord ->
+  (length old < fuel)%nat -> (length new < fuel)%nat ->
+  edits_in_scope tyo tyn old new = true -> cat_holds old cat0 -> drops_unreferenced old new cat0 ->
+  (forall nt, In nt new -> find_table old (tname nt) = None -> ~ In (tname nt) (cat_names cat0)) ->
+  exists l cat1, delta depth_stop delta_cfg column_order fuel ord old new = Ok l /\ exec cat0 l = XOk cat1 /\
+    cat_holds new cat1 /\ (forall x, In x (cat_names cat1) <-> In x (cat_names cat0) \/ In x (map tname new)).
+Proof. exact (delta_sound_columns_partial depth_stop). Qed.
+Print Assumptions C16_delta_sound_columns_partial.
+
+(* the property as stated: creation script of the old version, then the delta script, from the empty catalog;
+   clause (4) becomes a condition on the two models (no column of the old version refers to a dropped column) *)
+Theorem C16_create_then_delta_columns_partial : forall old new dold dn tyo tyn ord fuel,
+  wf old -> wf new -> wf_cols old -> wf_cols new -> is_depth old dold -> is_depth new dn ->
+  is_typing old tyo -> is_typing new tyn -> perm_oracle ord ->
+  (length old < fuel)%nat -> (length new < fuel)%nat ->
+  edits_in_scope tyo tyn old new = true -> no_ref_dropped old new = true ->
+  exists lc ld cat1, create depth_stop table_order column_order fuel ord old = Ok lc /\
+    delta depth_stop delta_cfg column_order fuel ord old new = Ok ld /\
+    exec empty_cat (lc ++ ld) = XOk cat1 /\ cat_holds new cat1 /\
+    (forall x, In x (cat_names cat1) <-> In x (map tname old) \/ In x (map tname new)).
+Proof. exact (create_then_delta_columns_partial depth_stop). Qed.
+Print Assumptions C16_create_then_delta_columns_partial.
+
+(* histories v1 -> v2 -> v3 in which v2 keeps every table of v1 (the delta script never drops a table: a table that is
+   absent from v2 stays in the database with its constraints - the two known chain findings) *)
+Theorem C16_delta_chain_columns_partial : forall v1 v2 v3 d1 d2 d3 ty1 ty2 ty3 ord fuel,
+  wf v1 -> wf v2 -> wf v3 -> wf_cols v1 -> wf_cols v2 -> wf_cols v3 ->
+  is_depth v1 d1 -> is_depth v2 d2 -> is_depth v3 d3 -> is_typing v1 ty1 -> is_typing v2 ty2 -> is_typing v3 ty3 -> perm_oracle ord ->
+  (length v1 < fuel)%nat -> (length v2 < fuel)%nat -> (length v3 < fuel)%nat ->
+  edits_in_scope ty1 ty2 v1 v2 = true -> no_ref_dropped v1 v2 = true ->
+  edits_in_scope ty2 ty3 v2 v3 = true -> no_ref_dropped v2 v3 = true ->
+  (forall tb, In tb v1 -> In (tname tb) (map tname v2)) ->
+  exists lc l12 l23 cat3, create depth_stop table_order column_order fuel ord v1 = Ok lc /\
+    delta depth_stop delta_cfg column_order fuel ord v1 v2 = Ok l12 /\ delta depth_stop delta_cfg column_order fuel ord v2 v3 = Ok l23 /\
+    exec empty_cat (lc ++ l12 ++ l23) = XOk cat3 /\ cat_holds v3 cat3.
+Proof. exact (delta_chain_columns_partial depth_stop). Qed.
+Print Assumptions C16_delta_chain_columns_partial.
+
+(* non-vacuity: a pair with a retyped column, an added column, a retargeted reference, a reference turned into a plain
+   column, a dropped column, a key that moves to a new reference column and an added table referring to that column
+   meets every hypothesis; what the delta script is *)
+Example C16_columns_hypotheses_met :
+  wf ce_old /\ wf ce_new /\ wf_cols ce_old /\ wf_cols ce_new /\ is_depth ce_old ce_dold /\ is_depth ce_new ce_dnew /\
+  is_typing ce_old (mty ce_old 4) /\ is_typing ce_new (mty ce_new 4) /\
+  edits_in_scope (mty ce_old 4) (mty ce_new 4) ce_old ce_new = true /\ no_ref_dropped ce_old ce_new = true.
+Proof. exact ce_hypotheses. Qed.
+Example C16_columns_delta_runs :
+  delta depth_stop delta_cfg column_order 5 id_ord ce_old ce_new =
+  Ok [AlterType 1%positive 11%positive (TVarchar 40); AddColumn 1%positive 12%positive TDate;
+      DropFK 3%positive 31%positive; AlterType 3%positive 31%positive TInteger; AddFK 3%positive 31%positive 2%positive 20%positive;
+      DropFK 3%positive 33%positive; AlterType 3%positive 33%positive TInteger;
+      AddColumn 3%positive 34%positive (TVarchar 40); AddFK 3%positive 34%positive 1%positive 11%positive;
+      DropPK 3%positive; DropColumn 3%positive 32%positive; AddPK 3%positive [34%positive];
+      CreateTable 4%positive [(40%positive, TVarchar 40)] [] [(40%positive, (3%positive, 34%positive))]].
+Proof. exact ce_delta_runs. Qed.
+
+(* the scope is exactly what the refutations above need: each witness pair of a known finding is outside it *)
+Example C16_scope_excludes_known_findings :
+  edits_in_scope (mty ai_old 3) (mty ai_new 3) ai_old ai_new = false /\
+  edits_in_scope (mty ai_new 3) (mty ar_new 3) ai_new ar_new = false /\
+  edits_in_scope (mty tr_old 3) (mty tr_new 3) tr_old tr_new = false /\
+  no_ref_dropped dr_old dr_new = false.
+Proof. repeat split; vm_compute; reflexivity. Qed.
+
+(* ---- creation script on every model (no hypothesis on the reference graph) ---- *)
+(* FULL: the generator returns on cycles, self references and dangling references (the stop rule of the source) *)
+Theorem C16_create_terminates_any : forall m ord fuel, (length m < fuel)%nat ->
+  exists l, create depth_stop table_order column_order fuel ord m = Ok l.
+Proof. exact create_terminates_any. Qed.
+Print Assumptions C16_create_terminates_any.
+
+(* TEST (samples, not a theorem): what `exec` makes of the script of an unorderable model - a self reference behind its
+   target column is accepted and typed; the other way round, and a two-table cycle, are rejected, not built wrongly *)
+Example C16_create_cyclic_samples :
+  run_create ByLineName ByLineName self_early =
+    XOk (Cat [CT 1%positive [CC 10%positive TInteger false; CC 11%positive TInteger false] (Some [10%positive])
+                 [(11%positive, (1%positive, 10%positive))]] []) /\
+  run_create ByLineName ByLineName self_late = XErr /\ run_create ByLineName ByLineName cycle2 = XErr.
+Proof. exact create_cyclic_samples. Qed.
+
+(* ---- obligation against the current source: writeModifySQLForATable, statement by statement (the order DROP
+   CONSTRAINT key / DROP COLUMN / ADD CONSTRAINT key and their guards are what modify_table transliterates) ---- *)
+Local Open Scope string_scope.
+Theorem C16_mod_table_shape : mod_table_shape =
+  [
+   "var primaryKeys []string";
+   "dropColumnQueries := """"";
+   "attrDefsNew := entityNew.AttrDefs";
+   "attrDefsOld := entityOld.AttrDefs";
+   "attrNamesListOld := sortColumnNamesIntoList(attrDefsOld)";
+   "attrNamesListNew := sortColumnNamesIntoList(attrDefsNew)";
+   "primaryKeyChanged := false";
+   "primaryKeyExisted := false";
+   "for _, attrNameOld := range attrNamesListOld { attrTypeOld := attrDefsOld[attrNameOld] attrTypeNew := attrDefsNew[attrNameOld] if attrTypeNew == nil { _, wasDeletedAttrAPrimaryKey := isAutoIncrementAndPrimaryKey(attrTypeOld) if wasDeletedAttrAPrimaryKey { primaryKeyChanged = true primaryKeyExisted = true } dropColumnQueries += fmt.Sprintf(""ALTER TABLE %s DROP COLUMN %s;\n"", tableName, attrNameOld) } }";
+   "for _, attrNameNew := range attrNamesListNew { attrTypeOld := attrDefsOld[attrNameNew] attrTypeNew := attrDefsNew[attrNameNew] if attrTypeOld == nil { var foreignKeyConstraints []string str, isNewColumnPK := v.writeCreateSQLForAColumn(attrTypeNew, tableName, attrNameNew, &primaryKeys, &foreignKeyConstraints, visitedAttributes) str = strings.TrimSpace(str) str = str[:len(str)-1] v.stringBuilder.WriteString(fmt.Sprintf(""ALTER TABLE %s ADD COLUMN %s;\n"", tableName, str)) if len(foreignKeyConstraints) > 0 { constraint := foreignKeyConstraints[0] constraint = constraint[:len(constraint)-1] v.stringBuilder.WriteString(fmt.Sprintf(""ALTER TABLE %s ADD %s;\n"", tableName, strings.TrimSpace(constraint))) } if isNewColumnPK { primaryKeyChanged = true } } if attrTypeOld != nil { primaryKeyChangedByColumn, wasOldPrimaryKey := v.writeModifySQLForAColumn(attrTypeOld, attrTypeNew, tableName, attrNameNew, &primaryKeys, visitedAttributes) if primaryKeyChangedByColumn { primaryKeyChanged = true } if wasOldPrimaryKey { primaryKeyExisted = true } } }";
+   "pkConstraintName := strings.ToUpper(tableName + ""_PK"")";
+   "if primaryKeyExisted && primaryKeyChanged { v.stringBuilder.WriteString(fmt.Sprintf(""ALTER TABLE %s DROP CONSTRAINT %s;\n"", tableName, pkConstraintName)) }";
+   "v.stringBuilder.WriteString(dropColumnQueries)";
+   "if primaryKeyChanged && len(primaryKeys) > 0 { pk := v.getPrimaryKeyString(primaryKeys) v.stringBuilder.WriteString(fmt.Sprintf(""ALTER TABLE %s ADD CONSTRAINT %s PRIMARY KEY(%s);\n"", tableName, pkConstraintName, pk)) }"].
+Proof. exact mod_table_expected. Qed.
+Print Assumptions C16_mod_table_shape.
+Local Close Scope string_scope.
+
+(* ======================================================================================================
+   Script files in an output directory that already holds scripts (a history written into one directory).
+   A file's content is a list of pieces (script id, from, to); `write wk old k n` is what GenerateFromSQLMap's write
+   call makes of the file when it writes script k of n bytes; `write_mode` is re-read from the source each run. *)
+Theorem C16_write_source_shape : write_mode = WriteTruncate.
+Proof. exact write_mode_is. Qed.
+Print Assumptions C16_write_source_shape.
+
+Local Open Scope string_scope.
+Theorem C16_write_file_shape : write_file_shape =
+  ["for _, e := range m { err := errors.Wrapf(afero.WriteFile(fs, e.filename, []byte(e.content), os.ModePerm), ""writing %q"", e.filename) if err != nil { logger.Errorf(""error received while writing the file %s. The error message is - %s"", e.filename, err.Error()) return err } }";
+   "return nil"].
+Proof. exact write_file_expected. Qed.
+Print Assumptions C16_write_file_shape.
+Local Close Scope string_scope.
+
+(* FULL: whatever the file held (nothing, a shorter script, a longer one), after the run it is exactly the script *)
+Theorem C16_written_file_is_the_script : forall old k n, write write_mode old k n = Some [(k, 0%N, n)].
+Proof. exact written_file_is_the_script. Qed.
+Print Assumptions C16_written_file_is_the_script.
+
+(* FULL: any history of runs into one directory - every file read back is the script of the run that wrote it *)
+Theorem C16_outdir_every_file_is_its_script : forall init steps,
+  run_writes write_mode init steps = map (fun s => Some [(fst s, 0%N, snd s)]) steps.
+Proof. exact every_written_file_is_its_script. Qed.
+Print Assumptions C16_outdir_every_file_is_its_script.
+
+(* REFUTED for a write call that does not truncate / appends; PARTIAL: without truncation the file is right exactly
+   when no file was there *)
+Theorem C16_write_keep_tail_refuted :
+  write WriteKeepTail (Some [(1%N, 0%N, 10%N)]) 2%N 4%N = Some [(2%N, 0%N, 4%N); (1%N, 4%N, 10%N)] /\
+  write WriteAppend (Some [(1%N, 0%N, 10%N)]) 2%N 4%N = Some [(1%N, 0%N, 10%N); (2%N, 0%N, 4%N)].
+Proof. exact keep_tail_refuted. Qed.
+Print Assumptions C16_write_keep_tail_refuted.
+Theorem C16_write_keep_tail_partial : forall k n, write WriteKeepTail None k n = Some [(k, 0%N, n)].
+Proof. exact keep_tail_partial. Qed.
+Print Assumptions C16_write_keep_tail_partial.
